@@ -53,8 +53,8 @@ META = dict(
 CLAUSES = {"setup_once_before_claims", "at_most_one_claim_per_partition", "exactly_one_claim_unless_ending",
            "claim_starts_at_committed_or_initial", "cleanup_once_after_claims_returned", "final_commit_after_cleanup",
            "consume_returns_last", "requests_carry_issued_identity", "fenced_member_rejoins_fresh",
-           "no_skip_across_sessions", "consume_hang", "close_hang", "consume_panic"}
-SHUTDOWN_CLAUSES = {"consume_hang", "close_hang", "consume_panic"}
+           "no_skip_across_sessions", "consume_hang", "close_hang", "consume_panic", "channels_closed_after_close"}
+SHUTDOWN_CLAUSES = {"consume_hang", "close_hang", "consume_panic", "channels_closed_after_close"}
 ONLY = ["group_*"]
 STRATEGIES = ["range", "roundrobin", "sticky"]
 
@@ -269,7 +269,14 @@ def shutdown_scenarios():
                                        _client("c2", [_sess("ctxwait", 1, 1, ("close", "claim"))])]))
     # the coordinator becomes unreachable, then Close
     out.append(_scen("sd-coord-down", [_client("c1", [_sess("drain", 1, 1, ("coord_down_close", "claim"))])]))
-    out.append(_scen("sd-leave-conn", [_client("c1", [_sess("drain", 1, 1, ("close", "claim"))], lf="conn")]))
+    # LeaveGroup fails at close time for a member that had joined: transport error, error codes, coordinator lookup failing.
+    # Close returns the error - and the Errors() channel still has to be closed (channels_closed_after_close)
+    for k, lf in enumerate(["conn", "notcoord", "illegal", "rebalance", "unknown"]):
+        out.append(_scen("sd-leave-%s" % lf, [_client("c1", [_sess("drain", 1, 1, ("close", "claim"))], lf=lf)], returnerrors=(k % 2 == 0)))
+    out.append(_scen("sd-leave-notcoord-idle", [_client("c1", [_sess("early", 1, 1)], lf="notcoord")], returnerrors=True))
+    out.append(_scen("sd-coord-down-lookup", [_client("c1", [_sess("drain", 1, 1, ("coord_down_close", "claim"))])], lookupfail=True))
+    out.append(_scen("sd-coord-down-lookup-errs", [_client("c1", [_sess("drain", 1, 1, ("coord_down_close", "claim"))])], lookupfail=True,
+                     returnerrors=True, auto="fast"))
     # double Close of the group
     out.append(_scen("sd-double-close", [_client("c1", [_sess("drain", 1, 1, ("close", "claim"))])], dclose=True))
     out.append(_scen("sd-double-close-idle", [_client("c1", [_sess("early", 1, 1)])], dclose=True))
@@ -295,7 +302,7 @@ def collect(ctx, rs, trace, ncases):
     if stats.get("traces", 0) != ncases:
         raise vlib.Inconclusive("trace validation evaluated %d executions, harness recorded %d" % (stats.get("traces", 0), ncases))
     # a client left in a healthy session is collateral of another client's hang; alone it means the script stalled
-    hung = {v["trace"] for v in allv if v["clause"] in ("consume_hang", "close_hang")}
+    hung = {v["trace"] for v in allv if v["clause"] in ("consume_hang", "close_hang", "channels_closed_after_close")}
     stalled = [v for v in allv if v["clause"] == "scenario_stalled" and v["trace"] not in hung]
     if stalled:
         raise vlib.Inconclusive("scenario stalled without a hang of the code under test (script / harness problem): %s" % stalled[:3])
@@ -377,6 +384,8 @@ def shutdown_family(ctx):
                   "close_returns": sum(1 for e in evs if e["ev"] == "close_ret"),
                   "consume_returns": sum(1 for e in evs if e["ev"] == "consume_ret"),
                   "cancels": sum(1 for e in evs if e["ev"] == "cancel"),
+                  "errors_channels_closed": sum(1 for e in evs if e["ev"] == "errors_closed"),
+                  "close_returned_error": sum(1 for e in evs if e["ev"] == "close_ret" and e.get("err")),
                   "scenario_ids": [sc["id"] for sc in scs]})
     return viols, stats, trace
 
